@@ -89,7 +89,19 @@ class RefWorld:
         return 'ok'
 
     def op_clear(self, e):
-        self.op_engine(e)
+        old = self.eng.get(e)
+        if old is not None:
+            # the SAME engine object goes on: a generator that was created but not yet started resolves against the
+            # cleared engine when it is started, and a retract that is suspended finds its facts erased
+            for fs in old.facts.values():
+                for f in fs:
+                    f.erased = True
+            old.facts.clear()
+            old.program.clear()
+            old.variadic.clear()
+            self.keys[e] = set()
+        else:
+            self.op_engine(e)
         self.atoms = {x for x in self.atoms if x[0] != e}      # "clears all defined atoms"
         return 'ok'
 
